@@ -29,6 +29,11 @@ import Vata.Proofs.Equivariance
   the *call*, the model needs none of them, so the theorems hold for every `A`.
 * **Checkers.**  `isDownSimB`, `isUpSimB`: the Boolean tests "is a downward / upward simulation" applied to the
   relation the real code returns.
+* **The route of the C++.**  Second half of this file: the translation to an LTS as coded, with the engine represented by
+  its specification.  `Vata/Properties/C04_Pipeline.lean` (which imports this file) closes the route: the fresh translator,
+  the translations as coded, the MODEL of the engine (`Vata/LtsEngine.lean`, C16), the matrix `buildResult` fills and the
+  `StateDiscontBinaryRelation` read through `get` (class model `Vata/BinRel.lean`, `Vata/Properties/Util_BinRel.lean`) –
+  `C04_pipeline_statement` there is the property in its own words for that composition.
 -/
 namespace Vata.Props
 open Vata
@@ -167,22 +172,66 @@ theorem C04_upward_via_lts_old_code_wrong :
     TaLts.upSimViaLtsOld TaLtsEx.exB 4 id = TaLts.upSimViaLts TaLtsEx.exB 4 id :=
   TaLts.translateUpward_old_counterexample
 
+/-! ## "do not depend on how the states happen to be numbered" -/
+
+/-- renaming the automaton itself: for every map `f` that is injective on the states of `A`, the greatest downward /
+upward simulation of the renamed automaton relates `f q` to `f r` exactly when the one of `A` relates `q` to `r`, and it
+consists of nothing but such pairs – the relation is determined by the automaton up to the names of its states.
+(`C04_via_lts_numbering_independent` above is the other reading: the numbering chosen INSIDE `ComputeSimulation`.) -/
+theorem C04_numbering_independent (f : Nat → Nat) (A : TA) (hf : InjOnStates f A) :
+    (∀ q r, q ∈ A.states → r ∈ A.states →
+      (((f q, f r) ∈ downSimRef (reindex f A) ↔ (q, r) ∈ downSimRef A) ∧
+       ((f q, f r) ∈ upSimRef (reindex f A) ↔ (q, r) ∈ upSimRef A))) ∧
+    (∀ x y, (x, y) ∈ downSimRef (reindex f A) ↔ ∃ q r, (q, r) ∈ downSimRef A ∧ x = f q ∧ y = f r) ∧
+    (∀ x y, (x, y) ∈ upSimRef (reindex f A) ↔ ∃ q r, (q, r) ∈ upSimRef A ∧ x = f q ∧ y = f r) :=
+  ⟨fun _ _ hq hr => ⟨downSim_equivariant f A hf hq hr, upSim_equivariant f A hf hq hr⟩,
+   downSimRef_reindex_image f A hf, upSimRef_reindex_image f A hf⟩
+
+example : InjOnStates EqvEx.exF SimModel.exA := EqvEx.exF_inj_simA
+example : (reindex EqvEx.exF SimModel.exA).states = [40, 33, 26, 19, 12] ∧
+    (26, 19) ∈ downSimRef (reindex EqvEx.exF SimModel.exA) ∧ (2, 3) ∈ downSimRef SimModel.exA := by decide
+
 /-!
+## closed since the last refresh of this file
+
+* **"The LTS engine inside the route is represented by its specification `ltsSimRef` …, not by a model of the
+  partition-refinement code"** – closed in `Vata/Properties/C04_Pipeline.lean`: `SimPipe.computeSimDown` /
+  `SimPipe.computeSimUp` run the MODEL of the engine (`LE.computeSimulation1` / `LE.computeSimulation`, C16) between the
+  translations as coded and the result classes; `C04_pipeline_downward`, `C04_pipeline_upward` (the composition returns a
+  relation and it is the greatest simulation), `C04_pipeline_downward_total`.
+* **"that the partition is a partition of ALL nodes … and that the relation on the block numbers is itself reflexive and
+  transitive … is only tested, not proved"** – closed: `C04_pipeline_engine_preconditions` (`LtsOK`, `isPartition`,
+  `isConsistent`, `RelTrans`, and `LE.initRel` = `TaLts.blockRel`); the hypotheses on the numbering are discharged for the
+  fresh translators by `C04_pipeline_numbering`.
+* The property in its own words for the composition ("states numbered `0..n-1` and `n` passed"; "an automaton without
+  useless states"; "reflexive and transitive"): `C04_pipeline_statement`; independence of the names of the states and of
+  `n` for the composition: `C04_pipeline_numbering_independent`, `C04_pipeline_preorder_and_independence`.
+* `C04_numbering_independent`, which this block used to cite, was missing from the file; it is stated above.
+* The containers the relation travels in are modelled as coded (`Vata/Properties/Util_BinRel.lean`: `Util_BinRel_buildResult`,
+  `Util_BinRel_discont`, `Util_BinRel_index`), and so are the helper classes inside the engine
+  (`Vata/Properties/Util_LtsUtil.lean`).
+* The same relation for the BDD bottom-up encoding: the model of `BDDBUTreeAutCore::ComputeDownwardSimulation` returns
+  `downSimRef` restricted to the states that own a top-down entry (`C07_bddsim_greatest_on_entry_states` in
+  `Vata/Properties/C07_BddSim.lean`).
+
 ## not yet proved
 
-* Independence of the numbering chosen by the translation map inside `ComputeSimulation` is `C04_via_lts_numbering_independent`;
-  independence under renaming of the automaton itself is `C04_numbering_independent`.
-* **The LTS engine** inside the route is represented by its specification `ltsSimRef` (greatest simulation inside the
-  initial relation, C16), not by a model of the partition-refinement code; the initial relation given by the partition
-  and the relation on its blocks is `TaLts.blockRel` (`x`, `y` related iff some blocks `i ∋ x`, `j ∋ y` are related).
-  The induced initial relation of `TranslateUpward` is proved to be a preorder on the nodes (`TaLts.upInit_refl`,
-  `TaLts.upInit_trans`); that the partition is a partition of ALL nodes `0..n-1` into non-empty blocks and that the relation
-  on the block numbers is itself reflexive and transitive (the preconditions of the engine as the C16 check states them)
-  is only tested (`#guard upOkB …` in `Vata/TaLts.lean`), not proved.
-* The numberings "in order of first encounter" of the C++ hash tables are modelled by the order of `A.rules`; the
-  environment table of `TranslateUpward` is modelled with all four fields of `Env` as the key (the C++ hashes all four but
-  its `operator==` omits `state_`; with cached hash codes this is the same unless two 64-bit hashes collide).
-* Outside `A.states` (e.g. numbers below `n` that occur nowhere in the automaton) the model relation is empty; what
-  the C++ reports for such indices is not covered.
+* The numberings "in order of first encounter" of the C++ hash tables are modelled by the order of `A.rules`
+  (`SimPipe.downOrder`, `SimPipe.upOrder`); the theorems hold for every `A`, hence for every order of the rules, but "the
+  rule list of the model is the iteration order of the hash tables" is not an object of the model.  The environment table
+  of `TranslateUpward` is modelled with all four fields of `Env` as the key (the C++ hashes all four but its `operator==`
+  omits `state_`; with cached hash codes this is the same unless two 64-bit hashes collide).
+* Outside `A.states` (e.g. numbers below `n` that occur nowhere in the automaton; for the upward route also final states
+  that occur in no rule) the model relation is empty and the dictionary of the result has no entry: `SimPipe.discRel` lists
+  pairs of translated states only and `Disc.get` throws (`BinRel.Disc.get_unknown`), as the C++ does.
+* **Preconditions that cannot be dropped.**  `Ranked A` for the downward route (`C04_downward_via_lts_needs_ranked`; it
+  always holds for the explicit encoding).  For the upward route every state must own a rule and – unless `n = 0` – there
+  must be a leaf rule (`SimPipe.LeafOk`, `C04_pipeline_upward_needs_leaf`): both hold for an automaton without useless
+  states with `n` = its number of states (`C04_pipeline_upward_trimmed`); on `a(0) → 0` with `n = 1`, or on the automaton
+  without rules with `n > 0`, the C++ violates the engine's preconditions (observed: out-of-bounds write in
+  `SimulationEngine::makeBlock` resp. an empty block).  Both inputs have useless states and are outside the property.
+* The engine model inside the pipeline treats the helper classes (`SmartSet`, `SharedCounter`, `SharedList`,
+  `SplittingRelation`) as values; that the classes as coded implement these values is `Util_LtsUtil_*`, that every call the
+  engine makes is inside the discipline those theorems assume is read off the sources (see C16).
 -/
 end Vata.Props
